@@ -143,6 +143,36 @@ func c14(r *mon.Run) {
 					}
 				}
 			}
+			// inside a chain of fields (after a dot, before a dot, on both sides): the name is one member name wherever
+			// it stands. Decoys: the nested path that a name with dots in it would spell if it were split at the dots.
+			{
+				lex := gen.EncodeString(s, gen.EncMinimal, nil)
+				inner := map[string]interface{}{s: c14Marker, s + "x": "decoy", "x" + s: "decoy"}
+				top := map[string]interface{}{"cont": inner, s: map[string]interface{}{"in": c14Marker, s: c14Marker, "cont": "decoy"}}
+				if parts := strings.Split(s, "."); len(parts) > 1 && parts[0] != "cont" {
+					nest := func(leaf interface{}) interface{} {
+						v := leaf
+						for q := len(parts) - 1; q >= 1; q-- {
+							v = map[string]interface{}{parts[q]: v}
+						}
+						return v
+					}
+					inner[parts[0]] = nest("decoy-nested")
+					top[parts[0]] = nest(map[string]interface{}{"in": "decoy-nested", s: "decoy-nested"})
+				}
+				for _, expr := range []string{"cont." + lex, lex + ".in", lex + "." + lex, "cont." + lex + " | @", "[cont." + lex + "][0]", "cont.{v: " + lex + "}.v", "@.cont." + lex, "(cont)." + lex} {
+					t.Eval()
+					o := apiSearch(expr, top)
+					if s == "cont" {
+						break // (the container's own name: the chains mean something else)
+					}
+					if o.Panicked || o.Err != nil || !ref.Match(c14Marker, o.V) {
+						r.Violate(&mon.Violation{Workload: "quoted-identifiers", Index: i, API: "Search", Expr: expr, DocDesc: "{cont: {" + strconv.QuoteToASCII(s) + ": marker, …decoys}, " + strconv.QuoteToASCII(s) + ": {in: marker, " + strconv.QuoteToASCII(s) + ": marker}, …the nested path the name would spell if split at its dots}",
+							Expected: "the value stored under key " + strconv.QuoteToASCII(s) + " (a quoted identifier in a chain of fields is one member name)", Observed: o.String(), Class: "quoted identifier in a chain"})
+						return
+					}
+				}
+			}
 			// as a multi-select-hash key: the result must carry exactly key s
 			lex := gen.EncodeString(s, gen.EncMinimal, nil)
 			expr := "{" + lex + ": `1`}"
